@@ -17,6 +17,10 @@ pub const ARENA_HINT: usize = 0x1000_0000_0000;
 pub const ARENA_SIZE: usize = 64 << 30;
 /// deliberately only page-aligned (not 64 KiB aligned): Linux gives page alignment only
 pub const ORIGIN_OFF: usize = (32 << 30) + 0x7000;
+/// released ranges up to this size are cleared by hand and stay resident
+pub const RETAIN_MAX: usize = 256 * 1024;
+/// after this many retained bytes (cumulative) the whole touched window is dropped
+pub const RETAIN_BUDGET: usize = 1 << 30;
 pub const ENOMEM: i64 = -12;
 pub const EINVAL: i64 = -22;
 pub const EFAULT: i64 = -14;
@@ -26,13 +30,13 @@ pub enum Policy {
     /// Linux-like top-down first fit: the highest free range below the origin that fits
     /// (fresh process: directly below the previous mapping; reuses holes left by trims)
     TopDown,
-    /// directly below the lowest live mapping (-> prepend path)
+    /// directly below a live mapping: the highest one that has room below it (-> prepend path)
     Below,
-    /// directly above the highest live mapping (-> segment extension when top lives there)
+    /// directly above a live mapping: the highest one that has room above it (-> segment extension when top lives there)
     Above,
-    /// below the lowest live mapping with a one-page inaccessible gap (-> add_segment, least_addr moves)
+    /// top-down first fit that never touches a live mapping: one inaccessible page on either side (-> add_segment, least_addr moves)
     Disjoint,
-    /// above the highest live mapping with a one-page inaccessible gap (-> add_segment)
+    /// bottom-up first fit above the origin, one inaccessible page on either side (-> add_segment above everything older)
     DisjointUp,
 }
 
@@ -117,6 +121,8 @@ pub struct Kernel {
     /// things the allocator should never do (foreign syscalls, unmapping what it does not own, odd arguments)
     pub anomalies: Vec<String>,
     pub arena_exhausted: bool,
+    retained: usize,
+    water: (usize, usize),
 }
 
 fn reserve_arena() -> (usize, bool) {
@@ -156,6 +162,8 @@ impl Kernel {
             events: Vec::with_capacity(16),
             anomalies: Vec::new(),
             arena_exhausted: false,
+            retained: 0,
+            water: (usize::MAX, 0),
         }
     }
 
@@ -181,10 +189,31 @@ impl Kernel {
         self.arena_exhausted = false;
     }
 
-    fn hw_release(&self, addr: usize, len: usize) {
+    /// Make a currently RW range inaccessible.  Whatever is mapped there later must read as zeros:
+    /// small ranges are cleared and keep their pages (no page-fault storm in the next run), large ones
+    /// drop their pages.
+    fn hw_release(&mut self, addr: usize, len: usize) {
         unsafe {
-            libc::mprotect(addr as *mut _, len, libc::PROT_NONE);
-            libc::madvise(addr as *mut _, len, libc::MADV_DONTNEED);
+            if len <= RETAIN_MAX {
+                std::ptr::write_bytes(addr as *mut u8, 0, len);
+                libc::mprotect(addr as *mut _, len, libc::PROT_NONE);
+                self.retained += len;
+                self.water = (self.water.0.min(addr), self.water.1.max(addr + len));
+                if self.retained > RETAIN_BUDGET {
+                    // drop the pages of everything that is not mapped right now (never of live memory)
+                    for (lo, hi) in self.gaps() {
+                        let (lo, hi) = (lo.max(self.water.0), hi.min(self.water.1));
+                        if hi > lo {
+                            libc::madvise(lo as *mut _, hi - lo, libc::MADV_DONTNEED);
+                        }
+                    }
+                    self.retained = 0;
+                    self.water = (usize::MAX, 0);
+                }
+            } else {
+                libc::mprotect(addr as *mut _, len, libc::PROT_NONE);
+                libc::madvise(addr as *mut _, len, libc::MADV_DONTNEED);
+            }
         }
     }
     fn hw_map(&self, addr: usize, len: usize) -> bool {
@@ -233,6 +262,7 @@ impl Kernel {
         let end = addr + len;
         let mut out: Vec<(usize, usize)> = Vec::with_capacity(self.regions.len() + 1);
         let mut removed = 0;
+        let mut rel: Vec<(usize, usize)> = Vec::new();
         for &(a, b) in &self.regions {
             if b <= addr || end <= a {
                 out.push((a, b));
@@ -241,7 +271,7 @@ impl Kernel {
             let lo = a.max(addr);
             let hi = b.min(end);
             removed += hi - lo;
-            self.hw_release(lo, hi - lo);
+            rel.push((lo, hi - lo));
             if a < lo {
                 out.push((a, lo));
             }
@@ -249,41 +279,73 @@ impl Kernel {
                 out.push((hi, b));
             }
         }
+        for (lo, n) in rel {
+            self.hw_release(lo, n);
+        }
         self.regions = out;
         self.footprint -= removed;
         removed
     }
 
+    /// free ranges of the arena, lowest first
+    fn gaps(&self) -> Vec<(usize, usize)> {
+        let mut v = Vec::with_capacity(self.regions.len() + 1);
+        let mut lo = self.base + PAGE;
+        for &(a, b) in &self.regions {
+            if a > lo {
+                v.push((lo, a));
+            }
+            lo = b;
+        }
+        let hi = self.base + self.size - PAGE;
+        if hi > lo {
+            v.push((lo, hi));
+        }
+        v
+    }
+
+    /// All policies are first-fit scans outward from the origin, so the addresses in use stay within a
+    /// window proportional to what is mapped (the state space of a bounded-footprint run is finite).
     fn choose(&mut self, len: usize, pol: Policy) -> Option<usize> {
         if self.regions.is_empty() {
             return Some(self.origin - len);
         }
-        let lowest = self.regions[0].0;
-        let highest = self.regions[self.regions.len() - 1].1;
+        let origin = self.origin;
         let a = match pol {
             Policy::TopDown => {
-                // gaps below the origin, highest first
-                let mut ceil = self.origin;
-                let mut found = None;
-                for &(a, b) in self.regions.iter().rev() {
-                    if a >= ceil {
-                        continue;
-                    }
-                    if b < ceil && ceil - b >= len {
-                        found = Some(ceil - len);
-                        break;
-                    }
-                    ceil = ceil.min(a);
-                }
-                match found {
-                    Some(x) => x,
-                    None => ceil.checked_sub(len)?,
-                }
+                // highest free range below the origin that fits
+                self.gaps().iter().rev().find_map(|&(lo, hi)| {
+                    let hi = hi.min(origin);
+                    (hi > lo && hi - lo >= len).then(|| hi - len)
+                })?
             }
-            Policy::Below => lowest.checked_sub(len)?,
-            Policy::Above => highest,
-            Policy::Disjoint => lowest.checked_sub(len + PAGE)?,
-            Policy::DisjointUp => highest + PAGE,
+            Policy::Disjoint => {
+                // the same, but never touching a live mapping (one inaccessible page on either side)
+                self.gaps().iter().rev().find_map(|&(lo, hi)| {
+                    let hi = hi.min(origin);
+                    (hi > lo && hi - lo >= len + 2 * PAGE).then(|| hi - PAGE - len)
+                })?
+            }
+            Policy::DisjointUp => {
+                // lowest free range above the origin that fits with a page on either side
+                self.gaps().iter().find_map(|&(lo, hi)| {
+                    let lo = lo.max(origin);
+                    (hi > lo && hi - lo >= len + 2 * PAGE).then(|| lo + PAGE)
+                })?
+            }
+            Policy::Below => {
+                // directly below a live mapping: the highest mapping that has room below it
+                let regs = self.regions.clone();
+                regs.iter().rev().find_map(|&(start, _)| {
+                    let p = start.checked_sub(len)?;
+                    (self.in_arena(p, len) && !self.intersects(p, len)).then_some(p)
+                })?
+            }
+            Policy::Above => {
+                // directly above a live mapping: the highest mapping that has room above it
+                let regs = self.regions.clone();
+                regs.iter().rev().find_map(|&(_, end)| (self.in_arena(end, len) && !self.intersects(end, len)).then_some(end))?
+            }
         };
         if !self.in_arena(a, len) || self.intersects(a, len) {
             return None;
